@@ -97,11 +97,15 @@ def _run_unary_sync(
                 app._server._check_protocol_version(md.get(PROTOCOL_VERSION_KEY) if md is not None else None)
             try:
                 _deserialize_params(kwargs, info.param_types, app._server.ipc_validation)
-            except (KeyError, ValueError) as exc:
-                # These are caller-value conversion failures (notably an
-                # unknown dictionary-encoded enum member), so classify them as
-                # malformed parameters without also misclassifying failures
-                # raised earlier by external-location resolution.
+            except Exception as exc:
+                # Everything this step converts is a value the caller put in
+                # the request, so whatever it raises is a caller-value
+                # conversion failure (an unknown dictionary-encoded enum
+                # member -> KeyError, a nested dataclass blob whose value has
+                # no Python counterpart -> OverflowError, ...): classify it as
+                # malformed parameters.  The handler is kept around this one
+                # call so that failures raised earlier by external-location
+                # resolution are not misclassified with it.
                 raise TypeError(str(exc)) from exc
             # Caller-controlled shape is refused *here*, while the request is
             # still being validated, so that anything raised past this point
